@@ -64,6 +64,9 @@ type FieldRef struct {
 	Obj  *Tok
 	Name string
 	Typ  types.Type
+	// Flat: an embedded by-value struct field that nothing has been stored into: its fields are looked up in Obj
+	// itself (the embedding struct and its embedded parts share one field namespace, as promoted selectors do)
+	Flat bool
 }
 
 type ElemRef struct {
@@ -174,6 +177,8 @@ type Interp struct {
 	Arity    []int // arity seen at each tape position (for enumeration)
 	Events   []string
 	globals  map[*ssa.Global]Value
+	inited   map[*ssa.Package]bool
+	lenient  int // depth of the package initializer being interpreted leniently (0 = none)
 	fresh    int
 	depth    int
 	IsLog    func(*ssa.CallCommon) bool
@@ -263,6 +268,43 @@ func (ip *Interp) Run(fn *ssa.Function, args []Value, bind []Value) (out Outcome
 		out.Ret = []Value{v}
 	}
 	return
+}
+
+// initPackage interprets the initializer of an in-scope package once, leniently, so that package-level variables hold
+// what their initializer expressions built (dispatch tables, compiled patterns, sentinel values).
+func (ip *Interp) initPackage(pkg *ssa.Package) {
+	if ip.inited == nil {
+		ip.inited = map[*ssa.Package]bool{}
+	}
+	if ip.inited[pkg] {
+		return
+	}
+	ip.inited[pkg] = true
+	init := pkg.Func("init")
+	if init == nil || init.Blocks == nil || !ip.InScope(init) {
+		return
+	}
+	saveLenient, saveDepth, saveFuel := ip.lenient, ip.depth, ip.Fuel
+	defer func() {
+		ip.lenient, ip.depth = saveLenient, saveDepth
+		if ip.Fuel < saveFuel-50000 {
+			ip.Fuel = saveFuel - 50000
+		}
+		if r := recover(); r != nil {
+			switch r.(type) {
+			case *Undecided, *GoPanic:
+				// whatever was stored before the initializer left the model stays
+			default:
+				panic(r)
+			}
+		}
+	}()
+	ip.lenient = ip.depth + 1
+	// the guard variable reads false on first entry
+	if g, ok := pkg.Members["init$guard"].(*ssa.Global); ok {
+		ip.globals[g] = &Cell{V: Bool(false)}
+	}
+	ip.CallFunction(init, nil, nil)
 }
 
 type frame struct {
@@ -397,6 +439,13 @@ func (ip *Interp) eval(f *frame, v ssa.Value) Value {
 				cell = &Cell{V: gv}
 			}
 		}
+		if cell == nil && ip.InScope != nil && x.Pkg != nil {
+			// a package-level table or compiled pattern: what the package initializer stores into it
+			ip.initPackage(x.Pkg)
+			if g, ok := ip.globals[x]; ok {
+				return g
+			}
+		}
 		if cell == nil {
 			cell = &Cell{V: NewTok("global:"+x.Name(), "global")}
 		}
@@ -522,6 +571,11 @@ func (ip *Interp) load(addr Value, typ types.Type) Value {
 	case *Tok:
 		return a // *p of a struct pointer: the object itself
 	case *FieldRef:
+		if a.Flat {
+			if _, has := a.Obj.Fields[a.Name]; !has {
+				return a.Obj
+			}
+		}
 		return ip.LoadField(a.Obj, a.Name, typ)
 	case *ElemRef:
 		if a.Arr != nil {
@@ -538,6 +592,12 @@ func (ip *Interp) load(addr Value, typ types.Type) Value {
 // LoadField reads a field of a token, initialising it lazily.
 func (ip *Interp) LoadField(obj *Tok, name string, typ types.Type) Value {
 	if v, ok := obj.Fields[name]; ok {
+		return v
+	}
+	if src, ok := obj.Attr["copyOf"].(*Tok); ok && src != obj {
+		// a by-value copy of a struct whose field had not been looked at yet: the copy holds what the original holds
+		v := ip.LoadField(src, name, typ)
+		obj.Fields[name] = v
 		return v
 	}
 	var v Value
@@ -570,6 +630,15 @@ func (ip *Interp) store(addr, val Value) {
 	case *Cell:
 		a.V = val
 	case *FieldRef:
+		if t, ok := val.(*Tok); ok && a.Flat {
+			if _, has := a.Obj.Fields[a.Name]; !has {
+				// initialising the embedded part: its fields become the embedding object's
+				for k, v := range t.Fields {
+					a.Obj.Fields[k] = v
+				}
+				return
+			}
+		}
 		a.Obj.Fields[a.Name] = val
 	case *ElemRef:
 		if a.Arr != nil {
@@ -586,13 +655,15 @@ func (ip *Interp) store(addr, val Value) {
 			if (t.Class == "zero" || t.Class == "struct") && len(t.Fields) == 0 && len(t.Attr) == 0 {
 				return
 			}
-			// struct value copy: the destination takes over the source's fields
+			// struct value copy: the destination takes over the source's fields (those not materialised yet are
+			// looked up in the source on first use)
 			for k, v := range t.Fields {
 				a.Fields[k] = v
 			}
 			for k, v := range t.Attr {
 				a.Attr[k] = v
 			}
+			a.Attr["copyOf"] = t
 			return
 		}
 		undecided("whole-struct store of %s into %s", Show(val), a.ID)
@@ -763,7 +834,9 @@ func (ip *Interp) step(f *frame, v ssa.Value) Value {
 		st := x.X.Type().Underlying().(*types.Pointer).Elem().Underlying().(*types.Struct)
 		fld := st.Field(x.Field)
 		obj := ip.objOf(base, x.X.Type().Underlying().(*types.Pointer).Elem())
-		return &FieldRef{Obj: obj, Name: fld.Name(), Typ: fld.Type()}
+		_, isStruct := fld.Type().Underlying().(*types.Struct)
+		_, has := obj.Fields[fld.Name()]
+		return &FieldRef{Obj: obj, Name: fld.Name(), Typ: fld.Type(), Flat: fld.Embedded() && isStruct && !has}
 	case *ssa.Field:
 		base := ip.eval(f, x.X)
 		st := x.X.Type().Underlying().(*types.Struct)
@@ -771,6 +844,11 @@ func (ip *Interp) step(f *frame, v ssa.Value) Value {
 		obj, ok := base.(*Tok)
 		if !ok {
 			undecided("field of %s", Show(base))
+		}
+		if _, isStruct := fld.Type().Underlying().(*types.Struct); isStruct && fld.Embedded() {
+			if _, has := obj.Fields[fld.Name()]; !has {
+				return obj // flattened embedded struct
+			}
 		}
 		return ip.LoadField(obj, fld.Name(), fld.Type())
 	case *ssa.IndexAddr:
@@ -845,6 +923,31 @@ func (ip *Interp) step(f *frame, v ssa.Value) Value {
 		return t[x.Index]
 	case *ssa.Call:
 		args, _ := ip.evalArgs(f, x.Common())
+		if ip.lenient > 0 && ip.depth == ip.lenient {
+			// inside a package initializer: other packages' initializers are skipped, and an initializer
+			// expression the model cannot evaluate leaves an opaque value in its variable
+			if cal := x.Common().StaticCallee(); cal != nil && cal.Name() == "init" && cal.Signature.Recv() == nil && cal.Pkg != f.fn.Pkg {
+				return nil
+			}
+			var ret Value
+			func() {
+				defer func() {
+					if r := recover(); r != nil {
+						if _, ok := r.(*Undecided); ok {
+							ret = ip.opaqueResult(x.Common().Signature())
+							return
+						}
+						if _, ok := r.(*GoPanic); ok {
+							ret = ip.opaqueResult(x.Common().Signature())
+							return
+						}
+						panic(r)
+					}
+				}()
+				ret = ip.call(f, x, args)
+			}()
+			return ret
+		}
 		ret := ip.call(f, x, args)
 		return ret
 	case *ssa.MakeClosure:
@@ -993,6 +1096,11 @@ func (ip *Interp) objOf(base Value, structT types.Type) *Tok {
 	case *Tok:
 		return b
 	case *FieldRef:
+		if b.Flat {
+			if _, has := b.Obj.Fields[b.Name]; !has {
+				return b.Obj
+			}
+		}
 		// address of an embedded struct field: the struct lives in the field
 		v := ip.LoadField(b.Obj, b.Name, structT)
 		if t, ok := v.(*Tok); ok {
@@ -1073,8 +1181,24 @@ func (ip *Interp) binop(op token.Token, a, b Value, f *frame) Value {
 			}
 		}
 	}
+	if op == token.ADD {
+		// string concatenation with a part the model does not know literally (a name token, a rendered value): text
+		_, sa := a.(Str)
+		_, sb := b.(Str)
+		_, oa := a.(*Opaque)
+		_, ob := b.(*Opaque)
+		if (sa || oa) && (sb || ob) || (sa || oa) && isNameLike(b) || (sb || ob) && isNameLike(a) {
+			return &Opaque{"text"}
+		}
+	}
 	undecided("binary %s on %s, %s in %s", op, Show(a), Show(b), f.fn)
 	return nil
+}
+
+// isNameLike: a token that stands for a string-typed input (a component name, a key).
+func isNameLike(v Value) bool {
+	t, ok := v.(*Tok)
+	return ok && (t.Class == "key" || t.Class == "name" || t.Class == "text")
 }
 
 // Equal compares two abstract values; known=false if the model cannot tell.
